@@ -46,7 +46,7 @@ KF_WITNESSES = [
 def plan(tier, seed):
     specs = []
     n = 10
-    ngen = 120 if tier == "quick" else 6000
+    ngen = 350 if tier == "quick" else 6000
     for i in range(n):
         specs.append({"name": f"gram-{i}", "mode": "gram", "n": ngen, "rseed": seed * 7919 + i})
     nsem = 10 if tier == "quick" else 500
